@@ -44,6 +44,8 @@ def extra(tier, rng, ev, rep, tmp):
                         ev.count('explicit_ambiguous_cyclic')
     ev.cov['traces_validated_against_impl'] = ev.cov['counts'].get('explicit_parses', 0)
     c03.judge(PID, cases, ev, rep, tmp, 'bnf')
+    from . import tb
+    tb.phase_amb(PID, tier, rng, ev, rep, tmp, extra_specs=directed_inline_ambiguity(tier, rng))
     if ev.cov['counts'].get('explicit_ambiguous', 0) < 300:
         raise C.MachineryFailure('vacuity: %s' % ev.cov['counts'])
 
